@@ -36,12 +36,14 @@ LEVEL_TEXT = ('Generated call histories are applied to a traced model and an unt
 LEVEL_NOTE = ('Trusted: scripted model wrapper (records per-pass values). reset=True is only compared differentially (the statement '
               'describes the trace content for reset=False); TRACE_VARIABLES class defaults are generated.')
 
-VARS = ['A', 'B', 'X', 'Yd']     # a name of more than one character too (a str is a sequence of characters)
+# a name of more than one character too (a str is a sequence of characters), and one that is also the name of a property of
+# the model class (`size`): for a script it is a variable like any other
+VARS = ['A', 'B', 'X', 'Yd', 'size']
 
 
 def make(case):
     # the scripted hooks sit *below* the tracer in the MRO, so a raising hook raises inside the tracer's super() call
-    base = scripted.make_class(['A', 'B'], exogenous=('X', 'Yd'), bases=(fsic.BaseModel,))
+    base = scripted.make_class(['A', 'B'], exogenous=('X', 'Yd', 'size'), bases=(fsic.BaseModel,))
     attrs = {}
     if case.get('trace_name'):
         attrs['TRACE_NAME'] = case['trace_name']      # the model may need the name `trace` for a variable of its own
@@ -50,7 +52,8 @@ def make(case):
     cls = type('Traced', (TracerMixin, base), attrs)
     n = case.get('n', 3)
     m = cls(range(n), A=np.array([1.0 + i for i in range(n)]), B=np.array([10.0 * (i + 1) for i in range(n)]),
-            X=np.array([0.5 * i for i in range(n)]), Yd=np.array([7.0 - i for i in range(n)]))
+            X=np.array([0.5 * i for i in range(n)]), Yd=np.array([7.0 - i for i in range(n)]),
+            size=np.array([100.0 + i for i in range(n)]))
     scripted.arm(m, case.get('script'), case.get('hooks'))
     m.__dict__['_calls'] = []
     return wire(m)
@@ -266,7 +269,7 @@ def strategy():
     def cases(draw):
         ncalls = draw(st.integers(1, 3))
         # one trace name list per case (S21: changing the name list between solves of a period is a known finding)
-        trace = draw(st.sampled_from([True, ['A'], ['B', 'A'], 'B', {'tuple': ['A', 'X']}, ['X', 'B', 'A'], 'Yd', ['Yd', 'A']]))
+        trace = draw(st.sampled_from([True, ['A'], ['B', 'A'], 'B', {'tuple': ['A', 'X']}, ['X', 'B', 'A'], 'Yd', ['Yd', 'A'], 'size', ['size', 'A']]))
         calls = []
         for _ in range(ncalls):
             c = {'entry': draw(st.sampled_from(['solve_t', 'solve_t', 'solve_period', 'solve'])),
@@ -299,7 +302,7 @@ def gen_basic():
     def gen():
         for moves in range(0, 4):
             script = {f'1:{k + 1}': [['A', ['move', 1.0]]] for k in range(moves)}
-            for trace in (True, ['A'], 'B', 'Yd', {'tuple': ['A', 'X']}, None, False):
+            for trace in (True, ['A'], 'B', 'Yd', {'tuple': ['A', 'X']}, None, False, ['size', 'A']):
                 for entry in ('solve_t', 'solve_period', 'solve'):
                     for max_iter in (moves, moves + 1, moves + 2):
                         for failures in ('raise', 'ignore'):
